@@ -176,8 +176,13 @@ type Arg struct {
 	A int `json:"a"`
 }
 type Res struct {
-	R int `json:"r"`
+	R int    `json:"r"`
+	S string `json:"s,omitempty"`
 }
+
+type panicMarshaler struct{ text string }
+
+func (p panicMarshaler) MarshalJSON() ([]byte, error) { panic(p.text) }
 
 var failPack int32 // the 'F' transfer filter refuses to pack while set
 
@@ -211,6 +216,14 @@ func runHandler(c *caseCfg, kind string) (interface{}, *erpc.Status) {
 		panic(h.pval)
 	case "unmarshalable":
 		return make(chan int), nil
+	case "encodepanic":
+		// the result's encoder panics while the reply is being packed
+		return panicMarshaler{h.pval}, nil
+	case "oversize":
+		// a reply that packs to more than the message size limit (lowered for this case)
+		socket.SetMessageSizeLimit(2048)
+		close(c.entered)
+		return &Res{R: 9, S: strings.Repeat("x", 4096)}, nil
 	case "sleep":
 		time.Sleep(150 * time.Millisecond)
 		return &Res{R: 3}, nil
@@ -597,6 +610,61 @@ func runNormal(c *caseCfg) observedSet {
 	return finish([]*caseCfg{c}, sess, rp, frames, ended)
 }
 
+// runOversize: the handler lowers the process-wide message size limit and returns a reply
+// above it; the limit is restored once the handler context has finished (both reply writes
+// are over) and only then are the frames read, so the scripted peer can read whatever reached
+// the wire.
+func runOversize(c *caseCfg) observedSet {
+	saved := socket.MessageSizeLimit()
+	defer socket.SetMessageSizeLimit(saved)
+	sess, rp := newSession(c.peer())
+	c.send(rp)
+	select {
+	case <-c.entered:
+	case <-time.After(caseWatchdog):
+		Must(errors.New("oversize: handler never entered"))
+	}
+	ok := waitHandlers(sess)
+	socket.SetMessageSizeLimit(saved)
+	if !ok {
+		stuckCount++
+		rp.Conn.Close()
+		return observedSet{stuck: true, stuckWhy: "handler context still running after " + caseWatchdog.String()}
+	}
+	sendPing(rp)
+	frames, ended := recvUntil(rp, true, 10*time.Second)
+	return finish([]*caseCfg{c}, sess, rp, frames, ended)
+}
+
+// runHTTP: a well-formed HTTP request (httproto) whose X-Mtype header says CALL, PUSH or an
+// unsupported type; written as text because httproto's own Pack only sends CALLs.
+func httpRequest(path string, seq int32, ty byte, vf string, body string) []byte {
+	req := "POST " + path + " HTTP/1.1\r\nX-Seq: " + strconv.Itoa(int(seq)) + "\r\nX-Mtype: " + strconv.Itoa(int(ty)) + "\r\n"
+	if vf != "" {
+		req += "vf: " + vf + "\r\n"
+	}
+	req += "Content-Type: application/json\r\nContent-Length: " + strconv.Itoa(len(body)) + "\r\n\r\n" + body
+	return []byte(req)
+}
+
+func runHTTP(c *caseCfg) observedSet {
+	if httpPF == nil {
+		httpPF = httproto.NewHTTProtoFunc()
+	}
+	cc, sc := TCPPair()
+	sess, st := c.peer().ServeConn(sc, httpPF)
+	if !st.OK() {
+		Must(errors.New("ServeConn: " + st.String()))
+	}
+	lastProto = "http"
+	rp := NewRawPeer(cc, socket.ProtoFunc(httpPF))
+	body, _ := c.bodyAndCodec()
+	rp.Conn.Write(httpRequest(c.serviceMethod(), c.seq, c.ty, strconv.Itoa(c.id), string(body)))
+	rp.Conn.Write(httpRequest(pingPath, pingSeq, erpc.TypeCall, "", ""))
+	frames, ended := recvUntil(rp, true, 10*time.Second)
+	return finish([]*caseCfg{c}, sess, rp, frames, ended)
+}
+
 // runClosed: the peer half-closes while the handler is parked; the reply write finds the
 // session no longer open.
 func runClosed(c *caseCfg) observedSet {
@@ -755,12 +823,14 @@ func (c *caseCfg) inputs() string {
 		h = VL(VS("ret"), statusVal(statusSpec{0, c.handler.st.msg, c.handler.st.cause}))
 	case "panic":
 		h = VL(VS("panic"), causeVal(c.handler.pval, false))
+	case "encodepanic":
+		h = VL(VS("encpanic"), causeVal(c.handler.pval, false))
 	default:
 		h = VL(VS("ret"))
 	}
 	wok, werr1, werr2 := "ok", "ok", "ok"
 	switch {
-	case c.handler.kind == "unmarshalable" || c.body == "codec0" || c.body == "unkcodec":
+	case c.handler.kind == "unmarshalable" || c.handler.kind == "oversize" || c.body == "codec0" || c.body == "unkcodec":
 		// the result cannot be marshalled: not marshalable at all, or the reply inherits the
 		// request's unusable body codec id
 		wok = "refused"
@@ -955,8 +1025,15 @@ func (c *caseCfg) statusOracle(st *Stats, idx int, o observedSet) {
 	case "panic":
 		exact(statusSpec{500, "Internal Server Error", c.handler.pval}, "handler panic")
 		return
-	case "unmarshalable":
-		code(500, "unmarshalable result")
+	case "unmarshalable", "oversize":
+		code(500, "result cannot be written (unmarshalable / over the size limit)")
+		return
+	case "encodepanic":
+		if v, ok := c.verdicts["pwr"]; ok && v.kind == "panic" {
+			code(500, "preWriteReply panic")
+		} else {
+			exact(statusSpec{500, "Internal Server Error", c.handler.pval}, "result encoder panic")
+		}
 		return
 	case "failpack":
 		return
@@ -1033,7 +1110,7 @@ func genHandler(cfg *RunCfg, kind string) handlerSpec {
 	switch kind {
 	case "status", "okstatus", "failpack":
 		h.st = genStatus(cfg, "hs")
-	case "panic":
+	case "panic", "encodepanic":
 		h.pval = "hp-" + strconv.Itoa(cfg.Rng.Intn(1000))
 	}
 	return h
@@ -1181,7 +1258,7 @@ func main() {
 	}
 
 	n := cfg.N
-	nSpecial := n / 12
+	nSpecial := n / 10
 	if nSpecial < 24 {
 		nSpecial = 24
 	}
@@ -1217,7 +1294,7 @@ func main() {
 	}
 	// 4. environment corners
 	for i := 0; i < nSpecial; i++ {
-		switch i % 8 {
+		switch i % 11 {
 		case 0: // pre-read-header veto / panic
 			c := newCase()
 			c.verdicts["prh"] = genVerdict(cfg, "prh", []int{0, 3}[cfg.Rng.Intn(2)])
@@ -1231,7 +1308,7 @@ func main() {
 			c := newCase()
 			c.env = "ctxexp"
 			kinds := []string{"ret", "status", "panic", "unmarshalable", "okstatus", "pwr-panic"}
-			k := kinds[(i/8)%len(kinds)]
+			k := kinds[(i/11)%len(kinds)]
 			if k == "pwr-panic" {
 				c.handler = genHandler(cfg, []string{"ret", "status"}[cfg.Rng.Intn(2)])
 				c.verdicts["pwr"] = genVerdict(cfg, "pwr", 3)
@@ -1275,6 +1352,30 @@ func main() {
 				c.ty = []byte{erpc.TypeCall, erpc.TypeCall, erpc.TypePush, 9}[cfg.Rng.Intn(4)]
 				record(c, runHTTPHeaderError(c), "header-error-codec-set")
 			}
+		case 8: // the result's encoder panics inside the reply write
+			c := newCase()
+			c.handler = genHandler(cfg, "encodepanic")
+			if cfg.Rng.Intn(3) == 0 {
+				c.route = "unknown"
+			}
+			if cfg.Rng.Intn(4) == 0 {
+				c.verdicts["pwr"] = genVerdict(cfg, "pwr", 3)
+			}
+			// a second CALL on the same session afterwards must still be answered: the ping
+			record(c, runNormal(c), "encoder-panic")
+		case 9: // reply over the message size limit
+			c := newCase()
+			c.handler = handlerSpec{kind: "oversize"}
+			record(c, runOversize(c), "reply-over-size-limit")
+		case 10: // httproto: the type comes from the X-Mtype header
+			c := newCase()
+			c.ty = []byte{erpc.TypeCall, erpc.TypePush, erpc.TypePush, 9, 4, 200}[cfg.Rng.Intn(6)]
+			c.route = []string{"known", "known", "none"}[cfg.Rng.Intn(3)]
+			c.body = []string{"valid", "valid", "badjson", "empty"}[cfg.Rng.Intn(4)]
+			hk := []string{"ret", "status", "panic"}[cfg.Rng.Intn(3)]
+			c.handler = genHandler(cfg, hk)
+			st.Count("http-type:" + typeClass(c.ty))
+			record(c, runHTTP(c), "http-x-mtype")
 		}
 	}
 	// 5. exhausted goroutine pool (process-global: last)
